@@ -24,7 +24,8 @@ SEEDS = [
     b"GET http://h/abs HTTP/1.1\r\nHost: h\r\nAuthorization: Basic dTpw\r\n\r\n",
 ]
 PROXY_SEED = b"PROXY TCP4 10.0.0.1 10.0.0.2 1111 80\r\nGET /p HTTP/1.1\r\nHost: x\r\n\r\n"
-ALPHABET = [b"\x00", b"\r", b"\n", b" ", b"\t", b":", b";", b"\x7f", b"\x80", b"\xff", b"a", b"0", b"\xe9", b","]
+ALPHABET = [b"\x00", b"\r", b"\n", b" ", b"\t", b":", b";", b"\x7f", b"\x80", b"\xff", b"a", b"0", b"\xe9", b",",
+            b"{", b"}", b"%"]       # characters that mean something to str.format / % when rejected text is echoed or logged
 PLAIN = b"GET /plain HTTP/1.1\r\nHost: ok\r\n\r\n"
 PEER_TCP = ("127.0.0.1", 40000)
 PEER_TCP6 = ("::1", 40000, 0, 0)         # what accept() returns on an AF_INET6 listener
